@@ -299,9 +299,10 @@ def r73(chk, m):
     item_levels = [n for n in LEVEL_NAMES if n != 'ENDSECTIONS_LEVEL']
 
     def run(fn, self_level, item_level, extra_env=None, element=True):
-        loop = stream_loops(fn)
-        need(len(loop) == 1, '%s: digestion loop not found' % fn.fullname)
-        loop = loop[0]
+        from .c05 import reachable_private
+        cands = [(f, l) for f in [fn] + reachable_private(m, fn) for l in stream_loops(f)]
+        need(len(cands) == 1, '%s: digestion loop not found (%d candidates)' % (fn.fullname, len(cands)))
+        fn, loop = cands[0]             # (the loop may live in a private helper of digest)
         item = A.Sym('ITEM', truthy=True, attrs={'distinct': True, 'level': item_level, 'nodeType': 1 if element else 3,
                                                  'ELEMENT_NODE': 1})
         h = SelfHooks(m, fn.cls)
@@ -315,7 +316,7 @@ def r73(chk, m):
         for kind in ('fall', 'continue', 'break', 'return'):
             for s, v in outs.get(kind, []):
                 app = sum(1 for ev in s.trace if item in ev[2] and re.search(r'self\.(appendChild|append)$', ev[1]))
-                push = sum(1 for ev in s.trace if item in ev[2] and ev[1] == 'tokens.push')
+                push = sum(1 for ev in s.trace if item in ev[2] and ev[1] == '%s.push' % text(loop.iter))
                 res.add('absorb' if (app == 1 and push == 0 and kind in ('fall', 'continue')) else
                         ('return' if (push == 1 and app == 0 and kind == 'break') else 'other(%s,%d,%d)' % (kind, app, push)))
         return res
@@ -351,22 +352,45 @@ def r73(chk, m):
 
 
 # ---------------------------------------------------------------------------
-def forwards_charsubs(fn):
-    """Does this normalize() implementation hand its charsubs on?"""
-    for c in M.calls_in(fn.node):
-        if M.call_name(c).endswith('normalize') or M.call_name(c).endswith('appendText'):
-            for a in list(c.args) + [k.value for k in c.keywords]:
-                if isinstance(a, ast.Name) and a.id == 'charsubs':
-                    return True
-    return False
+def forwards_charsubs(m, f, cls):
+    """Does this normalize() implementation apply the substitutions it is handed?  Interpreted on a DOM heap: a container of class
+    `cls` holding the text "a--b" and an element with the text "x--y", normalised with the substitution -- => DASH.  True / False, or a
+    string saying why the heap run does not decide it."""
+    from . import domheap as D
+    d = D.Dom(m)
+    P = d.elem('P', [d.text('t', 'a--b'), d.elem('e1', [d.text('in', 'x--y')])])
+    P.cls = cls
+    for n in [P] + list(D.children(P)):
+        if isinstance(n, A.Obj):
+            n.attrs.setdefault('nonNormalizedAttrs', [])
+    for c in D.children(P):
+        c.attrs['parentNode'] = P
+    try:
+        outs = D.run(m, f, {'self': P, 'charsubs': [('--', 'DASH')], '__P': P}, cls=cls)
+    except D.Imprecise as e:
+        return str(e)
+
+    def texts(n):
+        if isinstance(n, A.TextObj):
+            return str(n)
+        kids = D.children(n)
+        return 'TOP' if kids is None else ''.join(texts(k) for k in kids)
+    got = {(k, texts(s2.env['__P'])) for k, s2, v in outs}
+    if got == {('return', 'a--bx--y')}:
+        return False
+    if got and all(k == 'return' and 'TOP' not in t and 'DASH' in t for k, t in got):
+        return True
+    return 'normalize on [text "a--b", element[text "x--y"]] gives %s' % sorted(got)
 
 
 def r75(chk, m):
-    R = chk.rule('R7.5', 'no character substitution inside verbatim material or mathematics: every math-mode container and '
-                 'every verbatim environment resolves normalize() to an implementation that does not forward the substitutions', 30)
+    R = chk.rule('R7.5', 'no character substitution inside verbatim material or mathematics: for every math-mode container and every '
+                 'verbatim environment the resolved normalize(), interpreted on a DOM heap with the substitution -- => DASH, leaves '
+                 'the text of the container and of its element children as it was', 30)
     Env = m.cls('plasTeX', 'Environment')
     Verb = m.cls('plasTeX', 'VerbatimEnvironment')
     n = 0
+    decided = {}
     for c in sorted(macro_classes(m), key=lambda c: c.fullname):
         is_math = m.class_const(c, 'mathMode') is True
         is_verb = m.is_subclass(c, Verb) or c.fullname == 'plasTeX.Base.LaTeX.Verbatim.verb'
@@ -374,19 +398,26 @@ def r75(chk, m):
             continue
         # containers only: environments, or commands whose children are their argument
         args = m.class_const(c, 'args')
-        container = m.is_subclass(c, Env) or (isinstance(args, str) and re.search(r'\bself\b', args) is not None)
+        container = m.is_subclass(c, Env) or (isinstance(args, str) and re.search(r'\bself\b', args) is not None) \
+            or c.fullname == 'plasTeX.Base.LaTeX.Verbatim.verb'          # (\verb appends the scanned characters as its children)
         if not container:
             continue
         f = m.find_method(c, 'normalize')
         need(f is not None, 'normalize not resolvable for %s' % c.fullname)
         n += 1
-        fw = forwards_charsubs(f)
+        if f.fullname not in decided:
+            chk.analysed(f)
+            decided[f.fullname] = forwards_charsubs(m, f, c)
+        fw = decided[f.fullname]
+        if isinstance(fw, str):
+            chk.undecided(R, '%s.normalize' % c.fullname, fw, chk.where(c))
+            continue
         key = 'charsub:%s' % tex_name(m, c) if fw else '%s.normalize' % c.fullname
         chk.verdict(R, key, not fw,
-                    '%s (%s) resolves normalize() to %s, which forwards the document substitutions: quotes and dashes inside '
+                    '%s (%s) resolves normalize() to %s, which applies the document substitutions: quotes and dashes inside '
                     'it are rewritten (f\'\' becomes a closing quote)' % (c.fullname, 'math mode' if is_math else 'verbatim', f.fullname),
                     chk.where(c), 'normalize -> %s' % f.fullname)
-    chk.note('math/verbatim containers checked: %d' % n)
+    chk.note('math/verbatim containers checked: %d; distinct normalize() implementations interpreted: %d' % (n, len(decided)))
 
 
 def r77(chk, m):
@@ -401,7 +432,8 @@ def r77(chk, m):
         chk.analysed(fn)
         h = SelfHooks(m, c)
         h.keep = lambda ev: ev[0] == 'call' and ev[1] == 'self.paragraphs'
-        it = A.Interp(model=m, scope=fn, hooks=h, max_iter=1, exc_edges=False)
+        h.should_inline = A.private_only
+        it = A.Interp(model=m, scope=fn, hooks=h, max_iter=1, exc_edges=False, inline=3)
         Macro = m.cls('plasTeX', 'Macro')
         outs = it.run_function(fn, env={'self.macroMode': m.class_const(Macro, 'MODE_BEGIN'), 'self.level': lv['DOCUMENT_LEVEL']})
         chk.paths += len(outs)
